@@ -116,7 +116,7 @@ fn node_with_digest_len(digest_len: usize) -> Option<Node> {
     guarded(|| node.cc.verif_process_message(m)).ok()?;
     // measure
     let syn = node.cc.verif_create_syn_message();
-    let bytes = real::real_encode(&syn);
+    let bytes = guarded(|| real::real_encode(&syn)).ok()?;
     // SYN = 4 + digest + (2 + 1 cluster id)
     let got = bytes.len() - 4 - 3;
     if got != digest_len {
@@ -500,7 +500,13 @@ fn family_d(tier: Tier, deadline: Instant) -> (Tally, Vec<Viol>, bool) {
                         }
                     };
                     t.inc("deltas");
-                    let bytes = real::real_encode(&m);
+                    let bytes = match guarded(|| real::real_encode(&m)) {
+                        Ok(b) => b,
+                        Err(p) => {
+                            v.push(Viol { what: format!("the delta computed under budget {budget} cannot be serialized (the sender panics): {p}"), sig: format!("panic:{}", short_loc(&p)), replay: replay.clone() });
+                            continue;
+                        }
+                    };
                     let stream_len = bytes.len() - 4;
                     if stream_len > budget {
                         v.push(Viol { what: format!("delta stream of {stream_len} bytes under a budget of {budget}"), sig: "stream-exceeds-budget".into(), replay: replay.clone() });
